@@ -348,7 +348,7 @@ pub fn run_c09(report: &Report, budget: &Budget) {
     let thorough = report.thorough();
     // Healthy side
     let depth = if thorough { 3 } else { 2 };
-    let hb = Budget::new(if thorough { 500 } else { 20 });
+    let hb = crate::util::sub_budget(if thorough { 500 } else { 20 });
     let st = hist::explore(report, &hb, "C09", depth, thorough, false, thorough, &c09_healthy, None, None);
     hist::write_stats(report, &st, depth);
     // Damage side
